@@ -31,6 +31,8 @@ type Session struct {
 	noFrame       bool
 	probeFalse    bool
 	yamlTree      bool
+	lockSweep     bool
+	immutableHeaps map[string]bool
 	repo          string
 	verifDir      string
 	stale         []string
@@ -51,9 +53,10 @@ func (s *Session) pos(p token.Pos) token.Position {
 
 func NewSession(repo, verifDir string, patterns []string, overlay map[string][]byte) (*Session, error) {
 	s := &Session{repo: repo, verifDir: verifDir, strLits: map[string]string{}, closureByID: map[string]*closureInfo{},
-		autoInline: map[string]bool{}, usedContracts: map[string]bool{}, allTypes: map[string]*types.Package{}}
+		autoInline: map[string]bool{}, usedContracts: map[string]bool{}, allTypes: map[string]*types.Package{}, immutableHeaps: map[string]bool{}}
 	s.pre = NewPrelude()
 	s.te = NewTypeEnv(s.pre)
+	s.te.immutable = s.immutableHeaps
 	s.specs = NewSpecSet()
 	s.fset = token.NewFileSet()
 	cfg := &packages.Config{Mode: packages.LoadSyntax, Dir: repo, BuildFlags: []string{"-tags=verif"}, Fset: s.fset, Overlay: overlay,
@@ -165,7 +168,7 @@ func (s *Session) findObjectByName(name string) types.Object {
 	for _, p := range s.pkgs {
 		if o := p.Types.Scope().Lookup(name); o != nil {
 			switch o.(type) {
-			case *types.Const, *types.Var:
+			case *types.Const, *types.Var, *types.Func:
 				return o
 			}
 		}
@@ -418,6 +421,8 @@ func (s *Session) sweepSites(sd *SweepDecl) []sweepSite {
 					full = fullName(callee)
 				} else if cc.IsInvoke() {
 					full = "(" + types.TypeString(cc.Value.Type(), nil) + ")." + cc.Method.Name()
+				} else if k := fieldCallKey(cc.Value); k != "" && want[k] {
+					full = k
 				} else if n, ok := types.Unalias(cc.Value.Type()).(*types.Named); ok && n.Obj().Pkg() != nil {
 					full = "functype:" + n.Obj().Pkg().Path() + "." + n.Obj().Name()
 				}
@@ -448,5 +453,81 @@ func (s *Session) sweepSites(sd *SweepDecl) []sweepSite {
 		}
 	}
 	sort.Slice(out, func(i, j int) bool { return out[i].key < out[j].key })
+	return out
+}
+
+// lockSweepTargets lists the functions of the given packages that access a guarded field or call a function whose
+// contract requires a lock to be held, and that have no explicit contract for the property: they are verified against
+// the implicit contract "entered with no lock held".
+func (s *Session) lockSweepTargets(pkgs []string, prop string) []*ssa.Function {
+	guard := map[string]bool{}
+	for _, g := range s.specs.Guards {
+		guard[g.Pkg+"."+g.Type+"."+g.Field] = true
+	}
+	var out []*ssa.Function
+	seen := map[*ssa.Function]bool{}
+	var visit func(f *ssa.Function)
+	visit = func(f *ssa.Function) {
+		if f == nil || seen[f] || f.Blocks == nil {
+			return
+		}
+		seen[f] = true
+		if f.Synthetic != "" {
+			return
+		}
+		hit := false
+		for _, b := range f.Blocks {
+			for _, ins := range b.Instrs {
+				switch ins := ins.(type) {
+				case *ssa.FieldAddr:
+					if n, ok := types.Unalias(derefType(ins.X.Type())).(*types.Named); ok && n.Obj().Pkg() != nil {
+						stt := n.Underlying().(*types.Struct)
+						if guard[n.Obj().Pkg().Path()+"."+n.Obj().Name()+"."+stt.Field(ins.Field).Name()] {
+							hit = true
+						}
+					}
+				case ssa.CallInstruction:
+					if k := fieldCallKey(ins.Common().Value); k != "" && f.Pkg != nil {
+						for _, cr := range s.specs.Callsites {
+							if cr.Callee == k && cr.Pkg == f.Pkg.Pkg.Path() {
+								hit = true
+							}
+						}
+					}
+					if callee := ins.Common().StaticCallee(); callee != nil {
+						if c := s.contractFor(callee); c != nil {
+							for _, r := range c.Requires {
+								if strings.Contains(r.Text, "held(") {
+									hit = true
+								}
+							}
+						}
+					}
+				}
+			}
+		}
+		if hit {
+			out = append(out, f)
+		}
+		for _, af := range f.AnonFuncs {
+			visit(af)
+		}
+	}
+	for _, sp := range s.spkgs {
+		for _, m := range sp.Members {
+			switch m := m.(type) {
+			case *ssa.Function:
+				visit(m)
+			case *ssa.Type:
+				for _, t := range []types.Type{m.Type(), types.NewPointer(m.Type())} {
+					ms := s.prog.MethodSets.MethodSet(t)
+					for i := 0; i < ms.Len(); i++ {
+						visit(s.prog.MethodValue(ms.At(i)))
+					}
+				}
+			}
+		}
+	}
+	sort.Slice(out, func(i, j int) bool { return out[i].String() < out[j].String() })
 	return out
 }
